@@ -1171,7 +1171,45 @@ func (p *canonPrinter) shape(e ast.Expr, peek bool) string {
 	return q.expr(e)
 }
 
+// sinkLiteralInits moves every definition of a single variable by a literal (`n := 0`, `ok := false`) down to just
+// before the first later statement of the same list that mentions the variable: the definition has no effect and
+// nothing in between can observe it, so where it stands among the statements that do not use it is immaterial.
+func sinkLiteralInits(list []ast.Stmt) []ast.Stmt {
+	out := append([]ast.Stmt(nil), list...)
+	for i := len(out) - 2; i >= 0; i-- {
+		if _, ok := literalInit(out[i]); !ok {
+			continue
+		}
+		name := out[i].(*ast.AssignStmt).Lhs[0].(*ast.Ident).Name
+		if name == "_" {
+			continue
+		}
+		j := i + 1
+		for j < len(out) {
+			used := false
+			ast.Inspect(out[j], func(n ast.Node) bool {
+				if id, ok := n.(*ast.Ident); ok && id.Name == name {
+					used = true
+				}
+				return !used
+			})
+			if used {
+				break
+			}
+			j++
+		}
+		if j == len(out) || j == i+1 {
+			continue // never mentioned again in this list, or already adjacent to its first use
+		}
+		s := out[i]
+		copy(out[i:j-1], out[i+1:j])
+		out[j-1] = s
+	}
+	return out
+}
+
 func (p *canonPrinter) block(list []ast.Stmt) {
+	list = sinkLiteralInits(list)
 	p.depth++
 	for i := 0; i < len(list); i++ {
 		// a run of adjacent, mutually independent definitions with effect-free right-hand sides is order-independent:
